@@ -69,7 +69,6 @@ def main(tier, seed):
     shutil.rmtree(WORK, ignore_errors=True); os.makedirs(WORK, exist_ok=True)
     jobs = []
     for fam, name, m in c19.models(tier):
-        if any(m.compl) or m.suffixes: continue
         for accname in c19.ACC:
             for mode in (0, 2):
                 for (label, col, row) in name_sets(m):
